@@ -251,6 +251,26 @@ def generate(rng, tier, idx):
         if rng.random() < 0.8:
             probes.append({'api': 'find_dist_entry', 'name': name,
                            'rel': rng.choice([os.path.dirname(mp), dirs[-1], os.path.dirname(mp)])})
+    if rng.random() < 0.2:
+        # a ROGUE Manifest: a Manifest-named file that no accepted Manifest refers to, dropped into a directory that has
+        # none (nothing else is touched).  Its DIST, IGNORE and DATA entries must not reach any lookup - not even after an
+        # earlier DIST lookup for that directory on the same loader
+        import base64, gzip
+        rd = 'zz-other'
+        text = 'DIST dist-0.tar 4 SHA512 %s\nDIST dist-rogue.tar 5 SHA512 %s\nIGNORE x\nDATA y 1 SHA256 %s\n' % ('ee' * 64, 'ab' * 64, 'cd' * 32)
+        if rng.random() < 0.7:
+            muts.append({'m': 'add', 'p': rd + '/Manifest', 'k': 'file', 'c': text})
+        else:
+            muts.append({'m': 'add', 'p': rd + '/Manifest.gz', 'k': 'file', 'b64': base64.b64encode(gzip.compress(text.encode(), mtime=0)).decode()})
+        if rng.random() < 0.5:
+            muts.append({'m': 'rewrite', 'p': rd + '/x', 'c': 'beside the chain, altered'})
+        for rel_ in (rd, rd + '/x'):
+            for name_ in ('dist-0.tar', 'dist-rogue.tar'):
+                if rng.random() < 0.7:
+                    probes.append({'api': 'find_dist_entry', 'name': name_, 'rel': rel_})
+        for api_ in ('find_path_entry', 'verify_path', 'assert_path_verifies'):
+            if rng.random() < 0.8:
+                probes.append({'api': api_, 'path': rd + '/x', 'pre': ['dist:' + rng.choice([rd, rd + '/x'])]})
     return {'prop': ID, 'order_key': '%016x' % rng.getrandbits(64), 'top': 'Manifest',
             'chunks': rng.choice([None, None, None, 'mixed', 'tiny', 4096]),
             'tree': tree, 'manifests': mlist, 'muts': muts, 'ops': probes}
